@@ -12,14 +12,14 @@ THOROUGH_S = 300
 TECHNIQUE = ('runtime monitoring: one error of a known kind injected at an offset known from the harness layout; filename / '
              'line / col of the raised error compared with the ground truth computed by counting newlines in that file')
 RULE = ('random import graphs (1-5 files, generator of C17) and single-file string models; one injected error per load: '
-        'syntax error (illegal token), unknown name, non-unique name, unresolvable postponed reference (the offending name as a single reference or as the k-th element, k = 0..3, of a '
+        'syntax error (illegal token, or a text that stops in the middle of a statement with and without a final line end), unknown name, non-unique name, unresolvable postponed reference (the offending name as a single reference or as the k-th element, k = 0..3, of a '
         'comma separated reference list laid out over one or several lines); located in the main '
         'file, a direct import or a transitive import; preceded by random blank lines, indentation, comments and CR/LF-free '
         'or LF layouts; providers PlainNameImportURI / FQNImportURI (+ a postponing wrapper). Oracle: error.filename is the '
         'absolute path of the file containing the offending text (None for strings), (line, col) is the 1-based position of '
         'that text in that file. distinct = (graph shape, kind, location class, layout); non-trivial = error in an imported '
         'file or preceded by a multi-line layout')
-REQUIRED = {'errors_checked': 500, 'kind_syntax': 50, 'kind_unknown': 50, 'kind_not_unique': 50, 'kind_postponed': 50,
+REQUIRED = {'syntax_error_at_end_of_text': 50, 'syntax_error_at_end_of_unterminated_last_line': 20, 'errors_checked': 500, 'kind_syntax': 50, 'kind_unknown': 50, 'kind_not_unique': 50, 'kind_postponed': 50,
             'in_main_file': 100, 'in_imported_file': 100, 'string_loads': 50,
             'in_reference_list': 100, 'in_reference_list_not_first': 50, 'files_with_cr_line_ends': 50,
             'files_with_crlf_line_ends': 50, 'not_unique_definitions_in_imported_file': 30}
@@ -50,7 +50,14 @@ def one(ctx, i, rep=None):
         kind = KINDS[(i // 5) % 4] if not as_string else r.choice(KINDS)
         lead = r.choice(['', '\n', '\n\n  ', '   ', '\n// a comment\n', '\n\t', '\n\n\n// c1\n// c2\n    '])
         base = texts[X] + lead
-        if kind == 'syntax':
+        truncated = False
+        if kind == 'syntax' and r.random() < 0.4:
+            # a model that stops in the middle of a statement: the offending position is the end of the text
+            # (after trailing blanks / line ends, if any)
+            stmt, rel = r.choice(['ref zz ->', 'def', 'ref zz', 'def tr {', 'def tr { def q', 'ref']), None
+            truncated = True
+            ctx.count('syntax_error_at_end_of_text')
+        elif kind == 'syntax':
             stmt, rel = '@@ junk', 0
         elif kind == 'unknown':
             stmt, rel = 'ref zz -> nowhere', len('ref zz -> ')
@@ -83,8 +90,10 @@ def one(ctx, i, rep=None):
             ctx.count('in_reference_list')
             if k:
                 ctx.count('in_reference_list_not_first')
-        offset = len(base) + rel
-        newtext = base + stmt + r.choice(['', '\n', ' \n\n'])
+        newtext = base + stmt + (r.choice(['', '', '\n', ' \n\n', '  ', '\t', '\n   ']) if truncated else r.choice(['', '\n', ' \n\n']))
+        offset = len(newtext) if truncated else len(base) + rel
+        if truncated and not newtext.endswith('\n'):
+            ctx.count('syntax_error_at_end_of_unterminated_last_line')
         texts = dict(texts)
         texts[X] = newtext
         M.write_dir(d, texts)
